@@ -33,6 +33,7 @@ Record obj := {
   dropped : bool;    (* payload: pop_edges / destructor have run *)
   freed : bool;      (* block deallocated *)
   tok : bool;        (* ghost: one unit of the strong count is the token owed to the pending attempt *)
+  wtok : bool;       (* ghost: one unit of the weak count is the token owed to the pending try_dealloc *)
   links : list link; (* the two AtomicRc fields of the node *)
 }.
 
@@ -75,7 +76,7 @@ Inductive frame :=
 | FKids (depth ne curr : Z) (outs : list link)                    (* local: next outgoing edge *)
 | FKid118 (c : link) (depth ne curr : Z) (outs : list link)
 | FKid119 (c : link) (wc nxt : Z) (depth ne curr : Z) (outs : list link)
-| FDecW107 (o : nat) (tmp : bool)            (* decrement_weak *)
+| FDecW107 (o : nat) (tmp : bool) (own : bool)   (* decrement_weak; own = false: try_dealloc using up the token *)
 | FTDe102 (o : nat)                          (* try_dealloc *)
 | FIncW103 (o : nat) (cnt : Z)               (* increment_weak *)
 | FIncW104 (o : nat) (cnt old : Z)
@@ -136,11 +137,11 @@ Definition seto (s : state) (o : nat) (x : obj) : state :=
   end.
 
 Definition with_word (x : obj) (w : Z) : obj :=
-  {| word := w; dropped := dropped x; freed := freed x; tok := tok x; links := links x |}.
+  {| word := w; dropped := dropped x; freed := freed x; tok := tok x; wtok := wtok x; links := links x |}.
 Definition with_tok (x : obj) (b : bool) : obj :=
-  {| word := word x; dropped := dropped x; freed := freed x; tok := b; links := links x |}.
+  {| word := word x; dropped := dropped x; freed := freed x; tok := b; wtok := wtok x; links := links x |}.
 Definition with_links (x : obj) (l : list link) : obj :=
-  {| word := word x; dropped := dropped x; freed := freed x; tok := tok x; links := l |}.
+  {| word := word x; dropped := dropped x; freed := freed x; tok := tok x; wtok := wtok x; links := l |}.
 
 Definition sett (s : state) (t : nat) (x : thr) : state :=
   {| G := G s; objs := objs s; cells := cells s; threads := set_nth (threads s) t x; pending := pending s; err := err s |}.
@@ -250,13 +251,13 @@ Definition setv (x : thr) (i : nat) (h : handle) : thr := with_vars x (set_nth (
 (* new node with [n] strong shares and null links; returns its id *)
 Definition alloc (s : state) (n : Z) : state * nat :=
   ({| G := G s;
-      objs := objs s ++ [{| word := alloc_word n; dropped := false; freed := false; tok := false; links := [null_link; null_link] |}];
+      objs := objs s ++ [{| word := alloc_word n; dropped := false; freed := false; tok := false; wtok := false; links := [null_link; null_link] |}];
       cells := cells s; threads := threads s; pending := pending s; err := err s |}, S (length (objs s))).
 
 Definition dec_frames (o : nat) (cnt : Z) (tmp : bool) : list frame :=
   match o with O => [] | _ => [FDecS110 o cnt tmp true] end.
 Definition decw_frames (o : nat) (tmp : bool) : list frame :=
-  match o with O => [] | _ => [FDecW107 o tmp] end.
+  match o with O => [] | _ => [FDecW107 o tmp true] end.
 Definition incs_frames (o : nat) (k : cont) : list frame :=
   match o with O => [FRet k true] | _ => [FIncS100 o k] end.
 Definition incw_frames (o : nat) (cnt : Z) (k : cont) : list frame :=
@@ -560,7 +561,7 @@ Definition micro (s : state) (t : nat) (rec : list Z) : option (state * list Z) 
               if word ob =? cur then
                 let w' := sub_strong (with_epoch cur r) cnt in
                 let ob' := {| word := w'; dropped := dropped ob; freed := freed ob;
-                              tok := if own then tok ob else false; links := links ob |} in
+                              tok := if own then tok ob else false; wtok := wtok ob; links := links ob |} in
                 let s1 := seto s o ob' in
                 let s2 := if strong cur =? cnt then defer s1 KDestruct o else s1 in
                 ret s2 x (if tmp then FUnpinTmp :: k else k) [112; zo o; 0; 1012; zo o; 1]
@@ -614,7 +615,7 @@ Definition micro (s : state) (t : nat) (rec : list Z) : option (state * list Z) 
           match geto s o with
           | None => ret (set_err s 5) x k []
           | Some ob =>
-              ret (seto s o {| word := word ob; dropped := true; freed := freed ob; tok := tok ob;
+              ret (seto s o {| word := word ob; dropped := true; freed := freed ob; tok := tok ob; wtok := wtok ob;
                                links := map (fun _ => null_link) (links ob) |}) x
                   (FDisp117 o depth (epoch w) curr (links ob) :: k) [1101; zo o; depth; 1102; zo o; depth]
           end
@@ -622,8 +623,8 @@ Definition micro (s : state) (t : nat) (rec : list Z) : option (state * list Z) 
           match geto s o with
           | None => ret (set_err s 5) x k []
           | Some ob =>
-              if weaked (word ob) then ret s x (FDecW107 o false :: FKids depth ne curr outs :: k) [117; zo o; 0]
-              else ret (seto s o {| word := word ob; dropped := dropped ob; freed := true; tok := tok ob; links := links ob |}) x
+              if weaked (word ob) then ret s x (FDecW107 o false true :: FKids depth ne curr outs :: k) [117; zo o; 0]
+              else ret (seto s o {| word := word ob; dropped := dropped ob; freed := true; tok := tok ob; wtok := wtok ob; links := links ob |}) x
                        (FKids depth ne curr outs :: k) [117; zo o; 0; 1100; zo o; 0]
           end
       | FKids depth ne curr outs =>
@@ -657,12 +658,14 @@ Definition micro (s : state) (t : nat) (rec : list Z) : option (state * list Z) 
               else ret s x (FKid118 c depth ne curr outs :: k) [119; zo (fst c); nxt; 1019; zo (fst c); 0]
           end
       (* ---- decrement_weak / try_dealloc *)
-      | FDecW107 o tmp =>
+      | FDecW107 o tmp own =>
           match geto s o with
           | None => ret (set_err s 5) x k []
           | Some ob =>
               let w := word ob in
-              let s1 := seto s o (with_word ob (fsub w WEAK_COUNT)) in
+              let ob' := {| word := fsub w WEAK_COUNT; dropped := dropped ob; freed := freed ob; tok := tok ob;
+                            wtok := if own then wtok ob else false; links := links ob |} in
+              let s1 := seto s o ob' in
               let s2 := if weak w =? 1 then defer s1 KDealloc o else s1 in
               ret s2 x k [107; zo o; 0]
           end
@@ -670,8 +673,8 @@ Definition micro (s : state) (t : nat) (rec : list Z) : option (state * list Z) 
           match geto s o with
           | None => ret (set_err s 5) x k []
           | Some ob =>
-              if 0 <? weak (word ob) then ret s x (FDecW107 o true :: k) [102; zo o; 0]
-              else ret (seto s o {| word := word ob; dropped := dropped ob; freed := true; tok := tok ob; links := links ob |}) x k
+              if 0 <? weak (word ob) then ret s x (FDecW107 o true false :: k) [102; zo o; 0]
+              else ret (seto s o {| word := word ob; dropped := dropped ob; freed := true; tok := tok ob; wtok := wtok ob; links := links ob |}) x k
                        [102; zo o; 0; 1100; zo o; 0]
           end
       (* ---- increment_weak *)
@@ -699,9 +702,11 @@ Definition micro (s : state) (t : nat) (rec : list Z) : option (state * list Z) 
           | None => ret (set_err s 5) x k []
           | Some ob =>
               let w := word ob in
-              let s1 := seto s o (with_word ob (fadd w (wrap 64 (cnt * WEAK_COUNT)))) in
-              if weak w =? 0 then ret s1 x (FIncW106 o :: k) [105; zo o; cnt]
-              else ret s1 x k [105; zo o; cnt]
+              let w' := fadd w (wrap 64 (cnt * WEAK_COUNT)) in
+              if weak w =? 0 then
+                ret (seto s o {| word := w'; dropped := dropped ob; freed := freed ob; tok := tok ob; wtok := true; links := links ob |})
+                    x (FIncW106 o :: k) [105; zo o; cnt]
+              else ret (seto s o (with_word ob w')) x k [105; zo o; cnt]
           end
       | FIncW106 o =>
           match geto s o with
@@ -726,7 +731,7 @@ Definition micro (s : state) (t : nat) (rec : list Z) : option (state * list Z) 
               if word ob =? old then
                 let new := if strong old =? 0 then add_strong old 1 else old in
                 let ob' := {| word := with_epoch new r; dropped := dropped ob; freed := freed ob;
-                              tok := if strong old =? 0 then true else tok ob; links := links ob |} in
+                              tok := if strong old =? 0 then true else tok ob; wtok := wtok ob; links := links ob |} in
                 ret (seto s o ob') x (FRet c true :: k) [109; zo o; old]
               else
                 let w := word ob in
@@ -893,7 +898,7 @@ Definition init (prog : list Z) : state :=
   | g0 :: ncells :: nobj :: r =>
       let ws := firstn (nat_of nobj) r in
       {| G := g0;
-         objs := map (fun w => {| word := wrap 64 w; dropped := false; freed := false; tok := false;
+         objs := map (fun w => {| word := wrap 64 w; dropped := false; freed := false; tok := false; wtok := false;
                                   links := [null_link; null_link] |}) ws;
          cells := repeat null_link (nat_of ncells);
          threads := dec_threads (length r) (skipn (nat_of nobj) r);
